@@ -1,7 +1,10 @@
 """C19 Blocking calls are transparent to signal interruptions."""
 from plint import guards
 from plint.ir import calls, cv, line, show
-from plint.retry import SPEC, SLEEPS, check_retry
+from plint.retry import SPEC, SLEEPS, check_retry, run_scenario, facts_before, EINTR
+# a value each call returns on success (sem_open: any pointer but SEM_FAILED)
+SUCCESS = {"sem_wait": 0, "sem_timedwait": 0, "sem_open": 4096, "shm_open": 5, "connect": 0, "accept": 5, "accept4": 5, "recv": 1, "recvfrom": 1, "recvmsg": 1,
+           "send": 1, "sendto": 1, "sendmsg": 1, "poll": 1, "select": 1, "nanosleep": 0, "read": 1, "write": 1}
 from plint.units import INFORMATIONAL, AnalysisBroken
 from plint.wiring import wrapper_paths
 
@@ -37,6 +40,15 @@ def run(prog, rep):
         rule = "C19.1" if chan == "errno" else "C19.2"
         ok = check_retry(rep, rule, fn, b, i, c, site)
         n += 1
+        # ... and only then: a call that succeeded ends the loop whatever errno still holds from an earlier call.  (`-1 || EINTR`
+        # instead of `-1 && EINTR` takes a second unit from the semaphore, opens a second descriptor, receives twice.)
+        if chan == "errno":
+            okv = SUCCESS.get(name, 0)
+            res = run_scenario(fn, b, i, c, okv, EINTR, extra_facts=facts_before(fn, b, i), excuse_other_calls=False)
+            again = res["retried"] > 0
+            rep.ob(rule, fn, site + ":success-ends", not again, "%s returning success is not re-issued, whatever errno holds" % name if not again else
+                   "%s succeeded (a stale errno of EINTR is assumed) and a path calls it again: the operation is performed twice - a second unit is taken, a second "
+                   "descriptor opened, or the data of a second transfer replace the first" % name, c)
         if name in SLEEPS:
             if ok:
                 check_retry(rep, "C19.3", fn, b, i, c, site + ":remaining", need_remaining=True)
@@ -62,7 +74,7 @@ def run(prog, rep):
                    "returns 0 on a path where %s is not known to have returned 0" % name,
                    bad[0] if bad else c, bad[1] if bad else None)
     # both sleep primitives exist in the source; the analysed configuration selects one
-    rep.floor("C19.1", 12, "sem_open x2, sem_wait, shm_open x2, connect, accept, recv, recvfrom, send, sendto, poll")
+    rep.floor("C19.1", 24, "with and without success: sem_open x2, sem_wait, shm_open x2, connect, accept, recv, recvfrom, send, sendto, poll")
     rep.floor("C19.3", 3)
     cu = prog.unit("psysclose-unix.c")
     fn = cu.fn("p_sys_close")
@@ -99,6 +111,8 @@ THOROUGH_CONFIGS = [dict(name="nanosleep-only", extra_flags={"puthread.c": ["-UP
 RENAME_LOCALS = ['src/psocket.c', 'src/puthread.c', 'src/psemaphore-posix.c', 'src/pshm-posix.c']
 
 SELFTEST = [
+    dict(id="sem-wait-retry-or-for-and", file="src/psemaphore-posix.c", expect="C19.1",
+         old="while ((res = sem_wait (sem->sem_hdl)) == -1 && p_error_get_last_system () == EINTR)", new="while ((res = sem_wait (sem->sem_hdl)) == -1 || p_error_get_last_system () == EINTR)"),
     dict(id="sleep-absolute-mode-keeps-remainder-copy", file="src/puthread.c", expect="C19.3",
          old="clock_nanosleep (CLOCK_MONOTONIC,\n\t\t\t\t\t\t\t   0,", new="clock_nanosleep (CLOCK_MONOTONIC,\n\t\t\t\t\t\t\t   TIMER_ABSTIME,"),
     dict(id="semwait-while-to-if", file="src/psemaphore-posix.c", expect="C19.1",
